@@ -110,3 +110,65 @@ func verifLemmaNormIdem(s string, base string) (string, string) {
 	r := MustCreateRef(normalizeURI(s, base))
 	return r.String(), normalizeURI(r.String(), base)
 }
+
+// ---- JSON round trips (C01, C19): decode then encode, through the real codecs
+
+func verifLemmaInfoRoundTrip(data []byte) []byte {
+	var v Info
+	if err := v.UnmarshalJSON(data); err != nil {
+		return nil
+	}
+	out, err := v.MarshalJSON()
+	if err != nil {
+		return nil
+	}
+	return out
+}
+
+func verifLemmaContactInfoRoundTrip(data []byte) []byte {
+	var v ContactInfo
+	if err := v.UnmarshalJSON(data); err != nil {
+		return nil
+	}
+	out, err := v.MarshalJSON()
+	if err != nil {
+		return nil
+	}
+	return out
+}
+
+func verifLemmaLicenseRoundTrip(data []byte) []byte {
+	var v License
+	if err := v.UnmarshalJSON(data); err != nil {
+		return nil
+	}
+	out, err := v.MarshalJSON()
+	if err != nil {
+		return nil
+	}
+	return out
+}
+
+func verifLemmaTagRoundTrip(data []byte) []byte {
+	var v Tag
+	if err := v.UnmarshalJSON(data); err != nil {
+		return nil
+	}
+	out, err := v.MarshalJSON()
+	if err != nil {
+		return nil
+	}
+	return out
+}
+
+func verifLemmaHeaderRoundTrip(data []byte) []byte {
+	var v Header
+	if err := v.UnmarshalJSON(data); err != nil {
+		return nil
+	}
+	out, err := v.MarshalJSON()
+	if err != nil {
+		return nil
+	}
+	return out
+}
